@@ -219,6 +219,37 @@ def _mk(lines, fnid, kind, default_props, indent=''):
     return '\n'.join(texts), metas
 
 
+def _anchor_regex(stmt):
+    """anchor text -> regex that tolerates re-formatting: any run of white space (also none) between tokens, line breaks
+    after `(`/`,` and before `)`, rustfmt's trailing comma before `)`; `\u2026` stands for any text without `;{}`"""
+    parts = []
+    for chunk in stmt.split('\u2026'):
+        toks = re.findall(r'\w+|\s+|[^\w\s]', chunk)
+        out = []
+        for t in toks:
+            if t.isspace():
+                out.append(r'\s*')
+            elif t == ')':
+                out.append(r'\s*,?\s*\)')
+            elif re.match(r'\w+$', t):
+                out.append(re.escape(t))
+            else:
+                out.append(r'\s*' + re.escape(t) + r'\s*')
+        parts.append(''.join(out))
+    return re.compile('[^;{}]*?'.join(parts))
+
+
+def _find_anchor(src, stmt, start, end):
+    """-> (pos, length) of the next occurrence of the anchor at or after `start` (exact text first, then the
+    formatting-tolerant regex), or (-1, 0)"""
+    if '\u2026' not in stmt:
+        p0 = src.find(stmt, start, end)
+        if p0 >= 0:
+            return p0, len(stmt)
+    mm = _anchor_regex(stmt).search(src, start, end)
+    return (mm.start(), mm.end() - mm.start()) if mm else (-1, 0)
+
+
 _PROBE_COUNTER = [0]
 
 
@@ -262,13 +293,13 @@ def _weave_sub(sub, e, fnid, src, sig_end, body_close, lps, edits, vacuity, spli
         for a in anchors:
             m = re.match(r'(\d+)\s+(.*)$', a)
             k, text = (int(m.group(1)), m.group(2)) if m else (1, a)
-            pos = sig_end
+            pos, ln = sig_end, 0
             for _ in range(k):
-                pos = src.find(text, pos + 1, body_close)
+                pos, ln = _find_anchor(src, text, pos + 1, body_close)
                 if pos < 0:
                     raise AnchorLost('split anchor %r #%d in %s' % (text, k, fnid))
             if cut:
-                edits.append(Edit(pos + len(text), ' proof { assume(false); } //@@SPLIT-CUT %s\n' % case, 9))
+                edits.append(Edit(pos + ln, ' proof { assume(false); } //@@SPLIT-CUT %s\n' % case, 9))
     elif head.strip() == '@hint start':
         text, metas = _mk(lines, fnid, 'hint', e['props'])
         edits.append(Edit(sig_end + 1, '\n' + text + '\n', 4, [None] + metas + [None]))
@@ -286,12 +317,12 @@ def _weave_sub(sub, e, fnid, src, sig_end, body_close, lps, edits, vacuity, spli
             raise AnchorLost('bad vacuity header %r' % head)
         if vacuity:
             where_, k, stmt = m.group(1), int(m.group(2)), m.group(3)
-            pos = sig_end
+            pos, ln = sig_end, 0
             for _ in range(k):
-                pos = src.find(stmt, pos + 1, body_close)
+                pos, ln = _find_anchor(src, stmt, pos + 1, body_close)
                 if pos < 0:
                     raise AnchorLost('vacuity anchor %r #%d in %s' % (stmt, k, fnid))
-            at = pos if where_ == 'before' else pos + len(stmt)
+            at = pos if where_ == 'before' else pos + ln
             edits.append(Edit(at, '\n proof { let vp_c: bool = arbitrary::<Seq<bool>>()[%d]; if vp_c { assert(false); } } //@@VACUITY-PROBE %s at %s\n' % (_probe_no(), fnid, stmt[:30]), 8,
                               [None, {'fn': fnid, 'label': 'vacuity-probe-point[%s %d %s]' % (where_, k, stmt[:40]), 'props': [], 'kind': 'vacuity', 'where': sub['where'], 'text': ''}, None]))
     elif re.match(r'@hint (beforeloop|afterloop) \d+\s*$', head):
@@ -318,10 +349,11 @@ def _weave_sub(sub, e, fnid, src, sig_end, body_close, lps, edits, vacuity, spli
         pos = sig_end
         mlen = len(stmt)
         # `…` in an anchor stands for any text without `;{}` (e.g. the name of a local variable)
-        rx = re.compile('[^;{}]*?'.join(re.escape(x) for x in stmt.split('\u2026'))) if '\u2026' in stmt else None
+        rx = _anchor_regex(stmt)
         for _ in range(k):
-            if rx is None:
-                pos = src.find(stmt, pos + 1, body_close)
+            p0 = src.find(stmt, pos + 1, body_close) if '\u2026' not in stmt else -1
+            if p0 >= 0:
+                pos, mlen = p0, len(stmt)        # exact text first
             else:
                 mm = rx.search(src, pos + 1, body_close)
                 pos, mlen = (mm.start(), mm.end() - mm.start()) if mm else (-1, 0)
